@@ -550,6 +550,10 @@ class WorkflowConductor(object):
             if not prev_task_state_entry:
                 continue
 
+            # The inbound task is yet to decide on its task transitions if it is not completed.
+            if prev_task_state_entry.get("status") not in statuses.COMPLETED_STATUSES:
+                continue
+
             prev_task_transition_id = constants.TASK_STATE_TRANSITION_FORMAT % (
                 prev_transition[1],
                 str(prev_transition[2]),
